@@ -18,6 +18,7 @@ import (
 	"github.com/segmentio/kafka-go/protocol"
 	"github.com/segmentio/kafka-go/protocol/offsetcommit"
 	"github.com/segmentio/kafka-go/protocol/offsetfetch"
+	"github.com/segmentio/kafka-go/zzverif/vhook"
 
 	"verif/engine/fk"
 	"verif/engine/qx"
@@ -45,10 +46,18 @@ type scn struct {
 	evict     bool
 	bound     int
 	committed map[int]int64 // initial committed offsets
+	// closeRace: the application fetches one message and commits it (synchronously) while another goroutine
+	// closes the Reader; schedules are explored at the synchronisation and channel points of reader.go
+	closeRace bool
 }
 
 func (sc *scn) scenario() *qx.Scenario {
 	cfg := qx.Config{Horizon: 150 * time.Second, Quantum: 7 * time.Second, Grace: 12 * time.Second, MaxSteps: 900}
+	if sc.closeRace {
+		cfg.Fine = true
+		cfg.Files = []string{"reader.go"}
+		cfg.WakeFiles = []string{"reader.go"}
+	}
 	return &qx.Scenario{Name: sc.name, Cfg: cfg, Body: func(x *qx.Exec) *qx.Outcome {
 		c := fk.New(1)
 		c.AddTopic("t", 2, nil)
@@ -87,6 +96,33 @@ func (sc *scn) scenario() *qx.Scenario {
 			mu.Lock()
 			readers[name] = r
 			mu.Unlock()
+			if sc.closeRace {
+				delivered := make(chan struct{})
+				x.Go("app-"+name, func() {
+					m, err := r.FetchMessage(appCtx)
+					if err != nil {
+						rec(evt{Member: name, Kind: "end", Err: err.Error()})
+						close(delivered)
+						return
+					}
+					rec(evt{Member: name, Kind: "deliver", Part: m.Partition, Off: m.Offset})
+					close(delivered)
+					vhook.Point(vhook.KUser, nil) // the application can be descheduled between the two calls
+					rec(evt{Member: name, Kind: "commit-call", Part: m.Partition, Off: m.Offset})
+					cerr := r.CommitMessages(appCtx, m)
+					es := ""
+					if cerr != nil {
+						es = cerr.Error()
+					}
+					rec(evt{Member: name, Kind: "commit-ret", Part: m.Partition, Off: m.Offset, Err: es})
+				})
+				x.Go("closer-"+name, func() {
+					<-delivered
+					r.Close()
+					appCancel()
+				})
+				return
+			}
 			x.Go("app-"+name, func() {
 				ctx := appCtx
 				for {
@@ -369,7 +405,9 @@ func (sc *scn) judge(x *qx.Exec, c *fk.Cluster, st qx.Status, mu *sync.Mutex, ev
 	fmt.Fprintf(&kb, "deliveries=%d gens=%d", nd, gen)
 	o.Key = kb.String()
 	if st != qx.StDone {
-		viol("not-quiescent:"+string(st), fmt.Sprintf("the group did not deliver and commit everything within the horizon: %s", kb.String()))
+		// Progress is not part of C03 (which constrains what is committed and delivered, not when): such
+		// executions are counted, their deliveries and commits are still judged above.
+		o.Other = "not-quiescent:" + string(st)
 	}
 	o.Obs = evs
 	return o
@@ -400,6 +438,7 @@ func suite(tier string) []qx.SuiteItem {
 		{name: "one-member-interval-commits", interval: 500 * time.Millisecond, faults: map[protocol.ApiKey][]string{protocol.OffsetCommit: cf, protocol.Heartbeat: {"err:27"}}, bound: b},
 		{name: "one-member-readmessage", readMsg: true, committed: map[int]int64{0: 1}, faults: map[protocol.ApiKey][]string{protocol.OffsetCommit: {"err:27", "drop"}, protocol.OffsetFetch: {"err:15", "drop"}}, bound: b},
 		{name: "second-member-joins-and-leaves", second: true, faults: map[protocol.ApiKey][]string{protocol.OffsetCommit: {"err:27"}}, bound: b},
+		{name: "close-vs-sync-commit", closeRace: true, bound: b},
 		{name: "eviction", evict: true, faults: map[protocol.ApiKey][]string{protocol.Heartbeat: {"err:25"}, protocol.JoinGroup: {"err:25"}}, bound: b},
 	}
 	var items []qx.SuiteItem
